@@ -64,6 +64,35 @@ def rule_pair1(ctx, f, imp):
     ctx.floor("C20-PAIR1", n, 2, "clone methods that load from the source (clone_ref, clone_plainref)")
 
 
+def rule_memo_dir(ctx, f, imp):
+    ctx.rule("C20-PROV-memo", "every entry of the importer's old -> new memo is keyed by (something read from) the old object handed in and maps to the reference "
+             "created / promised in the target; the look-ups use the same direction")
+    n = 0
+    NEW = ("create", "promise", "fulfill")
+    for name, b in sorted(imp.items()):
+        fl = Flow(b)
+        for bi, t in F.calls(b):
+            if last_seg(F.callee_name(t)) != "insert" or "HashMap" not in F.callee_name(t) or len(t["args"]) < 3:
+                continue
+            fs = set()
+            fl.origins(arg_local(t, 0), fields=fs)
+            if "map" not in fs:
+                continue
+            n += 1
+            kl, vl = arg_local(t, 1), arg_local(t, 2)
+            from flow import PASS_LAST
+            pt = PASS_LAST + ("get_ref", "get_inner", "get_plain_ref", "from_id")
+            ko = fl.origins(kl, passthrough=pt) if kl is not None else []
+            vo = fl.origins(vl, passthrough=pt) if vl is not None else []
+            k_new = any(a[0] == "call" and last_seg(a[1]) in NEW for a in ko)
+            k_old = any(a[0] == "arg" and a[1] >= 2 for a in ko)
+            v_new = any(a[0] == "call" and last_seg(a[1]) in NEW for a in vo) or any(a[0] == "call" and last_seg(a[1]) == "get" and "HashMap" in a[1] for a in vo)
+            ctx.check(k_old and not k_new and v_new, "C20-PROV-memo", "%s#map.insert@%d" % (b["id"], n),
+                      "a memo entry is not old -> new (key from the old object: %s, key from a created object: %s, value from a created object: %s): an object reached twice "
+                      "is copied twice and references to it are not shared in the target" % (k_old, k_new, v_new), t["span"], detail="map.insert(old, new)")
+    ctx.floor("C20-PROV-memo", n, 3, "insertions into the old -> new memo (clone_ref, clone_plainref, clone_rcref)")
+
+
 def rule_pair2(ctx, f, imp):
     ctx.rule("C20-PAIR2", "a look-up in the typed memo (rcrefs) is never unwrapped: objects copied through untyped references are in `map` only")
     n = 0
@@ -295,6 +324,7 @@ def run(ctx):
     imp = importer_bodies(f)
     ctx.floor("C20", len(imp), 4, "Cloner methods of Importer")
     rule_pair1(ctx, f, imp)
+    rule_memo_dir(ctx, f, imp)
     rule_pair2(ctx, f, imp)
     rule_kinds(ctx, f)
     rule_closure(ctx, f)
